@@ -854,6 +854,66 @@ def rule_widget_none_test(ctx: Ctx, clause="C08.23") -> RuleResult:
     return rr
 
 
+def rule_enumerate_alignment(ctx: Ctx) -> RuleResult:
+    """A focus position is an index into `contents`.  Where a method finds the child to focus by walking the children
+    with enumerate(), the number only is such an index if the walk goes over all of contents (or sequences zipped
+    with it): enumerate() over a *filtered* view (a generator / comprehension with an `if`, filter()) counts the
+    items that passed the filter.  With k filtered-out items in front, the stored focus is k positions off and can
+    land on an unselectable child (seed C08-r8a: Columns.move_cursor_to_coords enumerated the visible columns).
+    Every enumerate() index that flows into a focus store or a contents subscript comes from an unfiltered walk."""
+    p = ctx.p
+    rr = RuleResult("KIND", "C08.24", "an enumerate() index that becomes a focus position / contents index counts all children, not a filtered selection of them", floor=4)
+    for fi in p.functions.values():
+        if not fi.module.name.startswith("urwid.widget") or fi.is_lambda or not fi.self_name:
+            continue
+        loops = [n for n in fi.own_nodes() if isinstance(n, ast.For) and isinstance(n.iter, ast.Call) and callee_name(n.iter) == "enumerate" and n.iter.args and isinstance(n.target, ast.Tuple) and isinstance(n.target.elts[0], ast.Name)]
+        if not loops:
+            continue
+        du = None
+        for lp in loops:
+            idx = lp.target.elts[0].id
+            tainted = {idx}
+            changed = True
+            while changed:
+                changed = False
+                for n in fi.own_nodes():
+                    if isinstance(n, ast.Assign) and any(isinstance(x, ast.Name) and x.id in tainted for x in ast.walk(n.value)):
+                        for t in n.targets:
+                            for x in ast.walk(t):
+                                if isinstance(x, ast.Name) and x.id not in tainted:
+                                    tainted.add(x.id)
+                                    changed = True
+            sinks = []
+            for n in fi.own_nodes():
+                if isinstance(n, (ast.Assign, ast.AugAssign)):
+                    tg = n.targets if isinstance(n, ast.Assign) else [n.target]
+                    if any(isinstance(t, ast.Attribute) and t.attr in ("focus_position", "focus_col", "focus_item", "focus") for t in tg) and any(isinstance(x, ast.Name) and x.id in tainted for x in ast.walk(n.value)):
+                        sinks.append(n)
+                if isinstance(n, ast.Subscript) and isinstance(n.value, ast.Attribute) and n.value.attr in ("contents", "_contents", "widget_list") and any(isinstance(x, ast.Name) and x.id in tainted for x in ast.walk(n.slice)):
+                    sinks.append(n)
+                if isinstance(n, ast.Call) and isinstance(n.func, ast.Attribute) and n.func.attr in ("set_focus", "_set_focus_position") and any(isinstance(x, ast.Name) and x.id in tainted for a in n.args for x in ast.walk(a)):
+                    sinks.append(n)
+            if not sinks:
+                continue
+            du = du or DefUse(fi)
+            at = du.node_of(lp)
+            src = lp.iter.args[0]
+            ex = du.expand(src, at) if at is not None else src
+            cands = [ex]
+            if isinstance(ex, ast.Name):
+                cands += [v for _dn, v, _how in du.defs.get(ex.id, []) if isinstance(v, ast.AST)]
+            filtered = None
+            for x in (y for c in cands for y in ast.walk(c)):
+                if isinstance(x, (ast.GeneratorExp, ast.ListComp)) and any(g.ifs for g in x.generators):
+                    filtered = x
+                if isinstance(x, ast.Call) and callee_name(x) == "filter":
+                    filtered = x
+            rr.inst(f"{short(fi)}: {norm(lp.iter, 50)}", True, {"function": short(fi), "walk": norm(ex, 70), "index_used_at": norm(sinks[0], 50), "filtered": filtered is not None} if len(rr.samples) < 8 else None)
+            if filtered is not None:
+                rr.add(finding("KIND", fi, lp.iter, f"`{norm(lp.iter, 50)}` numbers the items of a filtered walk (`{norm(filtered, 60)}`), and the number is used as a position in contents (`{norm(sinks[0], 50)}`): with k items filtered out in front (hidden zero-width columns) the focus lands k places too far left - possibly on an unselectable child", construct=f"{fi.name}: enumerate over a filtered walk gives the focus position"))
+    return rr
+
+
 def run(ctx: Ctx):
     p = ctx.p
     from ..rules import optcall, sentinel
@@ -888,6 +948,7 @@ def run(ctx: Ctx):
         rule_listbox_empty_setter(ctx),
         rule_widget_none_test(ctx),
         optcall.run_optcall(p, "C08.13", ("urwid.widget",), floor=35),
+        rule_enumerate_alignment(ctx),
     ]
 
 
